@@ -238,23 +238,91 @@ TAG_PAIRS = [
 ]
 
 
-def _char_condition(f, var='ch'):
-    """the condition over `ch` that decides 'accept / write raw' in a prepare_* or scan_* function."""
-    best = None
+def _char_variables(f):
+    """locals that hold one character of the text being processed: assigned from an index subscript, from a peek() call, or
+    bound by a `for` loop (the name is whatever the code calls it)."""
+    out = set()
     for n in walk_function(f.node):
-        test = None
+        if isinstance(n, ast.Assign) and len(n.targets) == 1 and isinstance(n.targets[0], ast.Name):
+            v = n.value
+            if isinstance(v, ast.Subscript) and not isinstance(v.slice, ast.Slice):
+                out.add(n.targets[0].id)
+            elif isinstance(v, ast.Call) and isinstance(v.func, ast.Attribute) and v.func.attr == 'peek':
+                out.add(n.targets[0].id)
+        elif isinstance(n, ast.For) and isinstance(n.target, ast.Name):
+            out.add(n.target.id)
+    return out
+
+
+def _is_char_test(test, var):
+    reads = any(isinstance(x, ast.Name) and x.id == var for x in ast.walk(test))
+    if not reads:
+        return False
+    for x in ast.walk(test):
+        if isinstance(x, ast.Compare):
+            operands = [x.left] + list(x.comparators)
+            has_var = any(isinstance(y, ast.Name) and y.id == var for y in operands)
+            consts = [y for y in operands if isinstance(y, ast.Constant) and isinstance(y.value, str)]
+            # a range test ('0' <= ch <= '9') or membership in a multi-character literal (ch in '-_')
+            if has_var and consts and (len(x.ops) == 2 or (isinstance(x.ops[0], (ast.In, ast.NotIn)) and len(consts[0].value) > 1)
+                                       or isinstance(x.ops[0], (ast.Lt, ast.LtE, ast.Gt, ast.GtE))):
+                return True
+        if isinstance(x, ast.Call) and isinstance(x.func, ast.Attribute) and x.func.attr.startswith('is') \
+                and isinstance(x.func.value, ast.Name) and x.func.value.id == var:
+            return True
+    return False
+
+
+def _rejects(stmts):
+    """does this branch reject / escape the character (raise, %-escape, encode) rather than pass it through?"""
+    for s in stmts:
+        for x in ast.walk(s):
+            if isinstance(x, ast.Raise):
+                return True
+            if isinstance(x, ast.BinOp) and isinstance(x.op, ast.Mod) and isinstance(x.left, ast.Constant) \
+                    and isinstance(x.left.value, str) and '%%' in x.left.value:
+                return True
+            if isinstance(x, ast.Call) and isinstance(x.func, ast.Attribute) and x.func.attr == 'encode':
+                return True
+    return False
+
+
+class CharClass:
+    """the set of characters a prepare_* / scan_* function lets through, as a predicate evaluated on the function's own
+    condition (whatever its spelling or the name of its character variable)."""
+
+    def __init__(self, repo, f):
+        self.repo, self.f = repo, f
+        vars_ = _char_variables(f)
+        nodes = sorted((n for n in walk_function(f.node) if isinstance(n, (ast.If, ast.While))),
+                       key=lambda n: (n.lineno, n.col_offset))
+        self.node = None
+        for n in nodes:
+            for v in sorted(vars_):
+                if _is_char_test(n.test, v):
+                    self.node, self.var = n, v
+                    break
+            if self.node is not None:
+                break
+        if self.node is None:
+            raise AnalysisError('%s: no condition on the current character found' % f.qualname)
+        n = self.node
         if isinstance(n, ast.While):
-            test = n.test
-        elif isinstance(n, ast.If):
-            test = n.test
-        if test is None:
-            continue
-        t = norm(test)
-        if "'0' <=" in t and "'a' <=" in t or '.isalnum()' in t or ('isal' in t and var in t):
-            inner, pos = A.strip_not(test)
-            best = (inner, n)
-            break
-    return best
+            self.pass_when = True
+        elif _rejects(n.body) and not _rejects(n.orelse):
+            self.pass_when = False
+        elif _rejects(n.orelse) and not _rejects(n.body):
+            self.pass_when = True
+        else:
+            raise AnalysisError('%s: cannot tell which branch of the character test passes the character through' % f.qualname)
+        self.text = norm(n.test)
+
+    def passes(self, c):
+        """True / False / None (depends on something else than the character)."""
+        v = CW.eval_cond(self.repo, self.node.test, {self.var: c})
+        if v is None:
+            return None
+        return v if self.pass_when else (not v)
 
 
 def r_tagchar_inclusion(ctx, repo):
@@ -268,23 +336,21 @@ def r_tagchar_inclusion(ctx, repo):
         ef, sf = E.methods.get(en), S.methods.get(sn)
         if ef is None or sf is None:
             raise AnalysisError('%s / %s have vanished' % (en, sn))
-        ec, sc = _char_condition(ef), _char_condition(sf)
-        if ec is None or sc is None:
-            raise AnalysisError('%s / %s: character class condition not recognised' % (en, sn))
+        ec, sc = CharClass(repo, ef), CharClass(repo, sf)
         bad = []
         for c in probes:
-            raw = CW.eval_cond(repo, ec[0], {'ch': c})
+            raw = ec.passes(c)
             if raw is False:
                 continue
-            acc = CW.eval_cond(repo, sc[0], {'ch': c})
+            acc = sc.passes(c)
             if acc is not True:
                 bad.append(c)
         if bad:
-            rule.fail('%s|%s|%s' % (en, sn, ''.join(bad[:8])), ef.module.rel, ec[1].lineno, ef.qualname, norm(ec[0])[:90],
+            rule.fail('%s|%s|%s' % (en, sn, ''.join(bad[:8])), ef.module.rel, ec.node.lineno, ef.qualname, ec.text[:90],
                       '%s writes %s unescaped in a %s, but %s does not accept %s there: the emitted text does not parse back'
                       % (en, ', '.join(repr(c) for c in bad[:6]), what, sn, 'them' if len(bad) > 1 else 'it'))
         else:
-            rule.ok(ef.loc(ec[1]), '%s raw characters are all accepted by %s (%d probes)' % (en, sn, len(probes)))
+            rule.ok(ef.loc(ec.node), '%s raw characters are all accepted by %s (%d probes)' % (en, sn, len(probes)))
     return rule
 
 
@@ -523,23 +589,30 @@ def r_tag_suffix_nonempty(ctx, repo):
     n = 0
     for st in walk_function(f.node):
         if isinstance(st, ast.Assign) and isinstance(st.value, ast.Subscript) and isinstance(st.value.slice, ast.Slice) \
-                and norm(st.value.value) == 'tag' and st.value.slice.lower is not None and st.value.slice.upper is None \
+                and norm(st.value.value) == f.params[1] and st.value.slice.lower is not None and st.value.slice.upper is None \
                 and isinstance(st.value.slice.lower, ast.Call) and norm(st.value.slice.lower.func) == 'len':
             p = norm(st.value.slice.lower.args[0])
             n += 1
 
-            def shorter(t, p=p):
-                parts = t.values if isinstance(t, ast.BoolOp) and isinstance(t.op, ast.And) else [t]
-                for part in parts:
-                    alts = part.values if isinstance(part, ast.BoolOp) and isinstance(part.op, ast.Or) else [part]
-                    if all(norm(a) in ('len(%s) < len(tag)' % p, 'len(tag) > len(%s)' % p, "%s == '!'" % p) for a in alts) \
-                            and any('len(' in norm(a) for a in alts):
-                        return True
-                return None
+            tagp = f.params[1]
             edges = []
+            has_len = False
             for nd in cfg.nodes:
-                if nd.kind == 'test' and shorter(nd.ast):
+                if nd.kind != 'test':
+                    continue
+                t = norm(nd.ast)
+                if t in ('len(%s) < len(%s)' % (p, tagp), 'len(%s) > len(%s)' % (tagp, p)):
                     edges.append((nd, True))
+                    has_len = True
+                elif t in ('len(%s) >= len(%s)' % (p, tagp), 'len(%s) <= len(%s)' % (tagp, p)):
+                    edges.append((nd, False))
+                    has_len = True
+                elif t in ("%s == '!'" % p, "'!' == %s" % p):
+                    edges.append((nd, True))
+                elif t in ("%s != '!'" % p, "'!' != %s" % p):
+                    edges.append((nd, False))
+            if not has_len:
+                edges = []
             nodes = cfg.nodes_of(st)
             if edges and nodes and all(cfg.guarded(x, edges=edges) for x in nodes):
                 rule.ok(f.loc(st), 'suffix = tag[len(%s):] only when len(%s) < len(tag) or %s == \'!\'' % (p, p, p))
